@@ -377,7 +377,7 @@ func c19Run(c *core.Ctx, idx int) {
 }
 
 func init() {
-	sizes := map[core.Tier]int{core.Quick: 240, core.Thorough: 8000}
+	sizes := map[core.Tier]int{core.Quick: 240, core.Thorough: 16000}
 	core.Register(&core.Prop{
 		ID:    "C19",
 		Level: "fault_enumeration",
